@@ -9,19 +9,23 @@ func FourCC(a, b, c, d byte) uint32 {
 	return uint32(a) | uint32(b)<<8 | uint32(c)<<16 | uint32(d)<<24
 }
 
-// Container FourCC values.
-var (
-	FourCCRIFF = FourCC('R', 'I', 'F', 'F')
-	FourCCWEBP = FourCC('W', 'E', 'B', 'P')
-	FourCCVP8  = FourCC('V', 'P', '8', ' ')
-	FourCCVP8L = FourCC('V', 'P', '8', 'L')
-	FourCCVP8X = FourCC('V', 'P', '8', 'X')
-	FourCCALPH = FourCC('A', 'L', 'P', 'H')
-	FourCCANIM = FourCC('A', 'N', 'I', 'M')
-	FourCCANMF = FourCC('A', 'N', 'M', 'F')
-	FourCCICCP = FourCC('I', 'C', 'C', 'P')
-	FourCCEXIF = FourCC('E', 'X', 'I', 'F')
-	FourCCXMP  = FourCC('X', 'M', 'P', ' ')
+// Container FourCC values. Constants, not variables: besides being immutable,
+// a FourCC stored with binary.LittleEndian.PutUint32 then compiles to a store of
+// an immediate on big-endian targets (go1.24's s390x back end cannot assemble
+// the byte-reversed load of a package-level variable: "illegal combination
+// MOVWBR ADDR ... REG").
+const (
+	FourCCRIFF uint32 = 'R' | 'I'<<8 | 'F'<<16 | 'F'<<24
+	FourCCWEBP uint32 = 'W' | 'E'<<8 | 'B'<<16 | 'P'<<24
+	FourCCVP8  uint32 = 'V' | 'P'<<8 | '8'<<16 | ' '<<24
+	FourCCVP8L uint32 = 'V' | 'P'<<8 | '8'<<16 | 'L'<<24
+	FourCCVP8X uint32 = 'V' | 'P'<<8 | '8'<<16 | 'X'<<24
+	FourCCALPH uint32 = 'A' | 'L'<<8 | 'P'<<16 | 'H'<<24
+	FourCCANIM uint32 = 'A' | 'N'<<8 | 'I'<<16 | 'M'<<24
+	FourCCANMF uint32 = 'A' | 'N'<<8 | 'M'<<16 | 'F'<<24
+	FourCCICCP uint32 = 'I' | 'C'<<8 | 'C'<<16 | 'P'<<24
+	FourCCEXIF uint32 = 'E' | 'X'<<8 | 'I'<<16 | 'F'<<24
+	FourCCXMP  uint32 = 'X' | 'M'<<8 | 'P'<<16 | ' '<<24
 )
 
 // VP8 format constants.
